@@ -49,6 +49,13 @@ func (e *Engine) callCC(st *State, fr *Frame, cc *ssa.CallCommon, pre *deferred)
 				return one(x.Len)
 			case ListV:
 				return one(BVu(uint64(len(x.E)), 64))
+			case MapV:
+				// the number of keys: a non-negative function of the domain (nothing more is known about it)
+				m := st.objs[x.ID].(*MapObj)
+				DeclareUF("mapcard_"+sortName(m.Dom.Sort), []string{m.Dom.Sort}, "I64")
+				n := UF("mapcard_"+sortName(m.Dom.Sort), 64, m.Dom)
+				st.assumeT(And(SLe(BVu(0, 64), n), SLt(n, BVu(1<<40, 64))))
+				return one(n)
 			}
 		case "cap":
 			switch x := args[0].(type) {
@@ -70,6 +77,9 @@ func (e *Engine) callCC(st *State, fr *Frame, cc *ssa.CallCommon, pre *deferred)
 			}
 			if src, ok3 := args[1].(SliceV); ok1 && ok3 && bvWidth(sl.Elem) == 8 && !isFloat(sl.Elem) {
 				return e.doAppendBytes(st, fr, sl, src)
+			}
+			if src, ok3 := args[1].(SliceV); ok1 && ok3 {
+				return e.doAppendSlice(st, fr, sl, src)
 			}
 		}
 		fail("builtin %s on %v", b.Name(), args)
@@ -892,6 +902,52 @@ func (e *Engine) doAppendBytes(st *State, fr *Frame, dst, src SliceV) []Outcome 
 	return outs
 }
 
+// doAppendSlice models append(dst, src...) for element types other than bytes, as far as shape and ownership go:
+// nothing to add: dst itself; room: in place (frame obligation), the elements of that object become unknown; else a
+// fresh object of unknown contents. (The contents are not tracked: sound, and enough for frame and safety
+// obligations; a contract that needs the copied elements needs a stronger model.)
+func (e *Engine) doAppendSlice(st *State, fr *Frame, dst, src SliceV) []Outcome {
+	zero := BVu(0, 64)
+	newLen := Add(dst.Len, src.Len)
+	var outs []Outcome
+	havocElems := func(s2 *State, base *Term) {
+		prefix := "E_" + loc{kind: "E", tn: typeName(dst.Elem)}.name("")[2:]
+		// make sure the families exist
+		e.loadLoc(s2, loc{kind: "E", tn: typeName(dst.Elem), ref: base, idx: zero}, dst.Elem)
+		for name, h := range s2.heap {
+			if strings.HasPrefix(name, prefix) {
+				nh := Store(h, base, SymSort(fresh("app_elems"), innerSortOf(h.Sort)))
+				nh.Sort = h.Sort
+				s2.heap[name] = nh
+			}
+		}
+	}
+	st0 := st.clone()
+	st0.assumeT(Eq(src.Len, zero))
+	if e.inc.Sat(st0.pc) {
+		outs = append(outs, Outcome{st: st0, ret: []Val{dst}})
+	}
+	st1 := st.clone()
+	st1.assumeT(And(Not(Eq(src.Len, zero)), SLe(newLen, dst.Cap)))
+	if e.inc.Sat(st1.pc) {
+		if !st1.spec {
+			e.oblige(st1, "frame:append-in-place", Not(ULt(dst.Base, Add(alloc0, BVu(1, 64)))), "append writes into the spare capacity of a pre-existing slice")
+		}
+		havocElems(st1, dst.Base)
+		outs = append(outs, Outcome{st: st1, ret: []Val{SliceV{Base: dst.Base, Off: dst.Off, Len: newLen, Cap: dst.Cap, Elem: dst.Elem}}})
+	}
+	st2 := st.clone()
+	st2.assumeT(And(Not(Eq(src.Len, zero)), Not(SLe(newLen, dst.Cap))))
+	if e.inc.Sat(st2.pc) {
+		base := st2.allocRef()
+		capT := Sym(fresh("newcap"), 64)
+		st2.assumeT(And(SLe(newLen, capT), SLt(capT, BVu(1<<40, 64))))
+		havocElems(st2, base)
+		outs = append(outs, Outcome{st: st2, ret: []Val{SliceV{Base: base, Off: zero, Len: newLen, Cap: capT, Elem: dst.Elem}}})
+	}
+	return outs
+}
+
 func innerSortOf(s string) string {
 	// "(Array Ref X)" -> X
 	s = strings.TrimPrefix(s, "(Array Ref ")
@@ -1252,4 +1308,8 @@ func needsFnVal(cc *ssa.CallCommon) bool {
 		return true
 	}
 	return cc.IsInvoke() || cc.StaticCallee() == nil
+}
+
+func sortName(s string) string {
+	return strings.NewReplacer("(", "", ")", "", " ", "_").Replace(s)
 }
